@@ -16,6 +16,7 @@ import (
 	"testing"
 	"testing/synctest"
 
+	"github.com/cenkalti/rain/v2/internal/zzsim/refbt"
 	"github.com/cenkalti/rain/v2/internal/zzsim/simrt"
 	"github.com/cenkalti/rain/v2/internal/zzsim/worlds"
 	"github.com/cenkalti/rain/v2/torrent"
@@ -79,6 +80,7 @@ func TestSim(t *testing.T) {
 	os.Setenv("TMPDIR", tmp)
 	simrt.Verbose = os.Getenv("SIM_VERBOSE") != ""
 	simrt.DebugDraws = os.Getenv("SIM_DEBUGDRAWS") != ""
+	refbt.WireLog = os.Getenv("SIM_WIRELOG") != ""
 	if os.Getenv("SIM_RAINLOG") == "" {
 		torrent.DisableLogging()
 	}
